@@ -95,6 +95,10 @@ class DuctRecorder:
             pre = {k: np.array(v, copy=True) for k, v in self.temp.items()}
             avg_mw = np.array(self.avg_duct_mw_temp, copy=True)
             hh = self.coolant_params.get('htc')
+            if rec.use_own_htc:
+                own = rec.own_unrodded_htc(self, pre['coolant_int'])
+                if own is not None:
+                    hh = own
             try:
                 return o_sn(self, temp_gap, htc_gap, adiabatic)
             finally:
@@ -127,6 +131,22 @@ class DuctRecorder:
                 val = None
             self._own_htc[key] = val
         return self._own_htc[key]
+
+    def own_unrodded_htc(self, reg, t_cool):
+        """Film coefficient of a single-node region at the coolant temperature
+        the wall is about to be solved against, evaluated on a private copy
+        (no property-update tolerance, single-node model only: there the wall
+        solve and the coefficient refer to the same coolant state; the
+        six-node model lags by design)."""
+        try:
+            if reg.model != 'simple' or hasattr(reg, '_coolant_tracker'):
+                return None
+            import copy
+            c = copy.deepcopy(reg)
+            c._update_coolant_params(float(np.ravel(t_cool)[0]))
+            return c.coolant_params['htc']
+        except BaseException:
+            return None
 
     # whether the outer boundary is adiabatic: from the input (set by the
     # driver of a recorded sweep) if known, else the flag the routine was given
